@@ -198,9 +198,16 @@ func (r *Ref) Commit(op Op, out Outcome) error {
 			touched[p.Source], touched[p.Destination] = true, true
 		}
 		am := map[string]map[string]string{}
-		for a, m := range out.AccMeta {
-			am[a] = m
-			touched[a] = true
+		if op.ScriptAccMeta != nil {
+			for a, m := range op.ScriptAccMeta {
+				am[a] = copyMeta(m)
+				touched[a] = true
+			}
+		} else {
+			for a, m := range out.AccMeta {
+				am[a] = copyMeta(m)
+				touched[a] = true
+			}
 		}
 		// the AccountMetadata request parameter is what was submitted: it counts even
 		// if the implementation forgot it in its result
@@ -209,9 +216,7 @@ func (r *Ref) Commit(op Op, out Outcome) error {
 				am[a] = map[string]string{}
 			}
 			for k, v := range m {
-				if _, set := am[a][k]; !set {
-					am[a][k] = v
-				}
+				am[a][k] = v // the request's value wins over the script's for the same key
 			}
 			touched[a] = true
 		}
